@@ -64,7 +64,9 @@ def oracle(case, obs, interval=None, n=1):
 
 def classify(case, obs, fails):
     kind = 'c09'
-    if case['ci'] != case['si'] and 'error' not in obs and not oracle(case, obs, interval=mc.own_interval(case)):
+    # only when the observation is long enough for the exchanged interval to be a real test, not a vacuous one
+    if case['ci'] != case['si'] and 'error' not in obs and mc.life(obs, case) >= 2 * max(case['ci'], case['si']) \
+            and not oracle(case, obs, interval=mc.own_interval(case)):
         kind = 'role-intervals-swapped'
     return dict(case, kind=kind, property='C09', observed=mc.canon(obs), why=fails[0])
 
@@ -190,6 +192,9 @@ def check_case(ctx, case, model_line, tag):
     obs = mc.impl_run(case)
     ctx.case(describe(case), nontrivial=bool(case['events']) or tag == 'exhaustive', sample_every=211)
     ctx.count(f"{tag}:{case['role']}")
+    for _t, ev in case['events']:
+        if ev.startswith('send'):
+            ctx.count(f"{case['role']}:{ev}")
     if 'error' in obs:
         ctx.count('impl-error')
     else:
@@ -259,6 +264,9 @@ def run(ctx):
     for _ in range(16000 if thorough else 1300):
         cases.append(('random', random_case(rng, thorough)))
     mons = [random_monitor(rng) for _ in range(6000 if thorough else 600)]
+    for tag, c in cases:
+        if tag != 'corpus':
+            mc.vary_sends(rng, c)
     lines = [mc.model_request(c) for _, c in cases] + [mc.monitor_request(m) for m in mons]
     ans = ctx.driver.ask(lines) if ctx.driver.available else [None] * len(lines)
     for (tag, c), a in zip(cases, ans):
